@@ -290,6 +290,7 @@ type respCase struct {
 	Files2       []fileRec  `json:"files2"`
 	Failed       bool       `json:"failed"`
 	Duplicate    bool       `json:"duplicate"`
+	SameDup      bool       `json:"samePluginDuplicate"`
 	BadName      bool       `json:"badName"`
 	BadInsertion bool       `json:"badInsertion"`
 	Written      [][]string `json:"written"`
